@@ -167,6 +167,7 @@ type Machine struct {
 	idN          int
 	extTypeTab   map[string]types.Type
 	onceDone     map[*Value]bool
+	bufBlob      map[*Value]*JSONBlob // in-memory writers that hold a JSON snapshot
 	merge        *mergeScope // innermost merge scope (merge.go)
 	Merged       int
 	LoopMemoHits int
